@@ -319,7 +319,7 @@ def su4_delivery_atomic_with_membership(ctx, rep):
     for k, s, l in ctx.revents(lambda l: l == "NOTIFY"):
         may, must = held_in_graph(ctx, G, k)
         n += 1
-        rep.check(lock in must, R, "notify-outside-list-lock:" + short(s.body.path), s.where, "on_notify runs with %s held" % lock,
+        rep.check(lock in must, R, "direct-on_notify-outside-list-lock", s.where, "on_notify runs with %s held" % lock,
                   "on_notify is called on a snapshot of the list after %s was released: a subscriber can be notified after its unsubscribe() returned" % lock)
     rep.floor(R, "direct notify sites", n, 1)
 
